@@ -18,7 +18,8 @@ class Event:
     _failed = False
 
     @classmethod
-    def create(cls, _name, *args, **kwargs):
+    def create(cls, _name, /, *args, **kwargs):
+        # (positional-only: `cls` and `_name` are legal keyword arguments of events)
         return type(cls)(_name, (cls,), {})(*args, **kwargs)
 
     def child(self, name, *args, **kwargs):
